@@ -61,7 +61,7 @@ func (c CurlyRouter) matchesRouteByPathTokens(routeTokens, requestTokens []strin
 	if len(routeTokens) < len(requestTokens) {
 		// proceed in matching only if last routeToken is wildcard
 		count := len(routeTokens)
-		if count == 0 || !strings.HasSuffix(routeTokens[count-1], "*}") {
+		if count == 0 || !isTailWildcardToken(routeTokens[count-1]) {
 			return false, 0, 0
 		}
 		// proceed
@@ -92,6 +92,11 @@ func (c CurlyRouter) matchesRouteByPathTokens(routeTokens, requestTokens []strin
 				if matchesRemainder {
 					break
 				}
+			} else if end := strings.Index(routeToken, "}"); end != -1 && end < len(routeToken)-1 {
+				// {var}suffix : the request token must carry the literal suffix
+				if !strings.HasSuffix(requestToken, routeToken[end+1:]) {
+					return false, 0, 0
+				}
 			}
 		} else { // no { prefix
 			if requestToken != routeToken {
@@ -101,6 +106,12 @@ func (c CurlyRouter) matchesRouteByPathTokens(routeTokens, requestTokens []strin
 		}
 	}
 	return true, paramCount, staticCount
+}
+
+// isTailWildcardToken tells whether routeToken is the special form {someVar:*} that matches all remaining tokens
+func isTailWildcardToken(routeToken string) bool {
+	colon := strings.Index(routeToken, ":")
+	return strings.HasPrefix(routeToken, "{") && colon != -1 && routeToken[colon+1:] == "*}"
 }
 
 // regularMatchesPathToken tests whether the regular expression part of routeToken matches the requestToken or all remaining tokens
